@@ -28,7 +28,7 @@ def document(rng, nested_notes=True, meta=None):
         planted.append((pos, "Zq%dx" % k[0], t))
         return t
     blocks = []
-    kinds = ["para", "heading", "list", "table", "link", "image", "footnote", "codespan", "codeblock", "quote", "deflist", "strong", "setext", "fence"]
+    kinds = ["para", "heading", "list", "table", "link", "image", "footnote", "codespan", "codeblock", "quote", "deflist", "strong", "setext", "fence", "autolink", "reflink"]
     rng.shuffle(kinds)
     notes = []
     for kind in kinds[: rng.randint(3, len(kinds))]:
@@ -47,9 +47,27 @@ def document(rng, nested_notes=True, meta=None):
                 notes.append("[^m%d]: %s" % (n, r("nested footnote")))
             else:
                 notes.append("[^n%d]: %s" % (n, r("footnote")))
+        elif kind == "autolink":
+            # the URL is both the target (attribute / argument position) and the visible text
+            k[0] += 1
+            blocks.append("Auto <http://example.com/p%d?a=1&b=2&c=%s> link." % (k[0], rng.choice(["3", "x_y", "%20", "~t", "#f"])))
+            if rng.random() < 0.5:
+                blocks.append("Mail <%s> here." % rng.choice(["user%d@example.com" % k[0], "info@b\u00fccher.example", "mailto:j\u00f6rg%d@example.com" % k[0]]))
+        elif kind == "reflink":
+            k[0] += 1
+            blocks.append("Ref [%s][r%d] link." % (r("link text", allow_quote=False), k[0]))
+            notes.append("[r%d]: http://example.com/r%d?a=1&b=2 \"%s\"" % (k[0], k[0], r("link title", allow_quote=False)))
         elif kind == "codespan": blocks.append("Code `%s` span." % r("code span"))
         elif kind == "codeblock": blocks.append("    " + r("code block"))
-        elif kind == "fence": blocks.append("```\n%s\n```" % r("code block"))
+        elif kind == "fence":
+            lang = ""
+            if rng.random() < 0.5:
+                # a language specifier (one word) made of a marker and reserved characters: it is printed in an attribute (HTML)
+                # or an optional argument (LaTeX), never as text
+                k[0] += 1
+                lang = "Zq%dx" % k[0] + "".join(rng.sample(["&", "%", "#", "$", "_", "<", ">", "{", "}", "~", "^", "\""], rng.randint(1, 4)))
+                planted.append(("fence language", "Zq%dx" % k[0], lang))
+            blocks.append("```%s\n%s\n```" % (lang, r("code block")))
         elif kind == "quote": blocks.append("> " + r("block quote"))
         elif kind == "deflist": blocks.append("Term%d\n: %s" % (k[0], r("definition")))
         elif kind == "strong": blocks.append("Some **%s** and *%s*." % (r("strong"), r("emphasis")))
